@@ -158,6 +158,10 @@ class ScenarioModel(histbfs.Model):
         self.app_timeout = app_timeout
         self.prelude = tuple(prelude)       # events applied before the explored history (not branched on)
         self.policy = None                  # thread kind that runs last (simkernel.World.low_kind); None = lowest id first
+        # key_time: the elapsed virtual time is part of the state key.  The canonical key caps ages at the largest configured timeout
+        # (DESIGN 2.2); bookkeeping that ages on a scale of its own (statistics slots, 1000 s) is not in it, so models that let such
+        # spans pass keep states apart by time - an over-fine key only costs executions
+        self.key_time = False
 
     def alphabet(self):
         return self._alphabet
@@ -188,6 +192,8 @@ class ScenarioModel(histbfs.Model):
                 for m in mons:
                     vs += m.step()
             key = (sc.key(), tuple(m.state() for m in mons))
+            if self.key_time:
+                key += (int(sc.nw.world.now),)
             info = None
             if want_log:
                 return key, vs, info, [repr(r) for r in sc.nw.world.log]
